@@ -812,8 +812,12 @@ class DirectoryNode:
                 walker.add_node(child, childpath)
                 continue
             verifier = child.get_verify_cap()
-            # allow LIT files (for which verifier==None) to be processed
-            if (verifier is not None) and (verifier in found):
+            # LIT files and LIT directories have no verify cap
+            # (verifier==None): they must still be processed, but only
+            # once each, so identify them by their (literal) cap instead.
+            if verifier is None:
+                verifier = child.get_uri()
+            if verifier in found:
                 continue
             found.add(verifier)
             if IDirectoryNode.providedBy(child):
